@@ -6,6 +6,7 @@ import (
 	"context"
 	"fmt"
 	"strconv"
+	"sync"
 
 	"github.com/synnaxlabs/cesium"
 	xcontrol "github.com/synnaxlabs/x/control"
@@ -162,6 +163,104 @@ func runE2E(c *e2eCase) *e2eOut {
 		for _, v := range telem.UnmarshalSeries[telem.TimeStamp](s) {
 			out.Read = append(out.Read, int64(v/telem.SecondTS))
 		}
+	}
+	return out
+}
+
+// runE2ERace: validation of the concurrent clause at the cesium level. In every round one
+// writer closes while another one opens on the same channel; whichever order the two calls
+// take effect in, the second writer is the only open writer afterwards, so its write must be
+// authorized, succeed and be readable.
+type e2eRaceOut struct {
+	Rounds   int      `json:"rounds"`
+	Failures []string `json:"failures"`
+	Read     int      `json:"read"`
+	Expected int      `json:"expected"`
+}
+
+func runE2ERace(rounds int) *e2eRaceOut {
+	out := &e2eRaceOut{Rounds: rounds, Failures: []string{}}
+	ctx := context.Background()
+	db, err := cesium.Open(ctx, "", cesium.WithFS(xfs.NewMem()))
+	if err != nil {
+		panic(err)
+	}
+	defer func() { _ = db.Close() }()
+	const key cesium.ChannelKey = 7
+	if err := db.CreateChannel(ctx, cesium.Channel{Key: key, Name: "idx", IsIndex: true, DataType: telem.TimeStampT}); err != nil {
+		panic(err)
+	}
+	next := int64(10)
+	open := func(subj string) (*cesium.Writer, error) {
+		return db.OpenWriter(ctx, cesium.WriterConfig{
+			Channels:                 []cesium.ChannelKey{key},
+			Start:                    telem.TimeStamp(next) * telem.SecondTS,
+			Authorities:              []xcontrol.Authority{100},
+			ControlSubject:           xcontrol.Subject{Key: subj},
+			Sync:                     new(true),
+			EnableAutoCommit:         new(true),
+			AutoIndexPersistInterval: cesium.AlwaysIndexPersistOnAutoCommit,
+		})
+	}
+	write := func(w *cesium.Writer) (bool, error) {
+		s := telem.NewSeriesV(telem.TimeStamp(next) * telem.SecondTS)
+		next++
+		return w.Write(telem.MultiFrame([]cesium.ChannelKey{key}, []telem.Series{s}))
+	}
+	fail := func(i int, f string, a ...any) {
+		if len(out.Failures) < 8 {
+			out.Failures = append(out.Failures, fmt.Sprintf("round %d: ", i)+fmt.Sprintf(f, a...))
+		}
+	}
+	for i := 0; i < rounds; i++ {
+		wA, err := open("a" + strconv.Itoa(i))
+		if err != nil {
+			fail(i, "open A: %v", err)
+			break
+		}
+		if ok, err := write(wA); err != nil || !ok {
+			fail(i, "write A: authorized=%v err=%v", ok, err)
+		} else {
+			out.Expected++
+		}
+		var (
+			wB   *cesium.Writer
+			errB error
+			errA error
+			wg   sync.WaitGroup
+		)
+		wg.Add(2)
+		go func() { defer wg.Done(); errA = wA.Close() }()
+		go func() { defer wg.Done(); wB, errB = open("b" + strconv.Itoa(i)) }()
+		wg.Wait()
+		if errA != nil {
+			fail(i, "close A: %v", errA)
+		}
+		if errB != nil {
+			fail(i, "open B: %v", errB)
+			continue
+		}
+		if ok, err := write(wB); err != nil || !ok {
+			fail(i, "write B (sole open writer): authorized=%v err=%v", ok, err)
+		} else {
+			out.Expected++
+		}
+		if err := wB.Close(); err != nil {
+			fail(i, "close B: %v", err)
+		}
+	}
+	fr, err := db.Read(ctx, telem.TimeRangeMax, key)
+	if err != nil {
+		fail(-1, "read: %v", err)
+		return out
+	}
+	for k, s := range fr.Entries() {
+		if k == key {
+			out.Read += int(s.Len())
+		}
+	}
+	if out.Read != out.Expected {
+		fail(-1, "read %d samples, %d authorized writes succeeded", out.Read, out.Expected)
 	}
 	return out
 }
